@@ -84,11 +84,23 @@ func exec(line string) zv.Out {
 		}
 	}
 	fix, dang, multi := false, false, false
+	flavOfNode := map[NodeKey]int{} // flavour of the first inserted certificate of each node
+	for _, o := range ops {
+		k := NodeKey{u.Specs[o.I].Subj, u.Specs[o.I].Key}
+		if _, ok := flavOfNode[k]; !ok {
+			flavOfNode[k] = FlavourOf(u.Specs[o.I])
+		}
+	}
 	for _, e := range g.Edges {
 		if e.Issuer == nil {
 			dang = true
 		} else if nodeAt[*e.Issuer] > first[e.FP] {
 			fix = true
+			if fl := flavOfNode[*e.Issuer]; fl != FlavCA {
+				tags = append(tags, "fixup-by-issuer-"+FlavName[fl])
+			}
+		} else if fl := flavOfNode[*e.Issuer]; fl != FlavCA && *e.Issuer != e.Child {
+			tags = append(tags, "direct-link-to-issuer-"+FlavName[fl])
 		}
 		n := 0
 		for _, nd := range g.Nodes {
@@ -105,7 +117,19 @@ func exec(line string) zv.Out {
 			tags = append(tags, c)
 		}
 	}
+	sort.Strings(tags)
+	tags = uniq(tags)
 	return zv.Out{Go: g.Canon(), Viol: viol, Tags: tags}
+}
+
+func uniq(l []string) []string {
+	var out []string
+	for i, x := range l {
+		if i == 0 || x != l[i-1] {
+			out = append(out, x)
+		}
+	}
+	return out
 }
 
 func def(subj, key, iss, sign int) CertSpec {
@@ -147,6 +171,95 @@ func Twins() [][]CertSpec {
 		{def(0, 0, 0, 0), def(1, a, 0, 0), def(1, b, 0, 0), def(2, 2, 1, b), def(1, a, 1, b)},
 		// dangling first: children of the twins, then the twins themselves
 		{def(2, 2, 1, a), def(3, 3, 1, b), def(1, b, 1, a), def(1, a, 1, b), def(1, 4, 1, 4)},
+	}
+	for _, u := range us {
+		for i := range u {
+			u[i].Serial = i + 1
+		}
+	}
+	return us
+}
+
+// Authority flavours of a certificate used as an ISSUER. None of them may influence the graph: an edge's
+// issuer is "a node with the issuer name whose key verifies the certificate", nothing else.
+const (
+	FlavCA          = iota // ordinary CA (basicConstraints cA=TRUE, no keyUsage)
+	FlavNotCA              // basicConstraints present, cA=FALSE
+	FlavNoBC               // v3 without basicConstraints
+	FlavKUNoSign           // CA with keyUsage = digitalSignature (no keyCertSign)
+	FlavKUEncipher         // no basicConstraints, keyUsage = keyEncipherment
+	FlavKUSign             // CA with keyUsage = keyCertSign|cRLSign (control)
+	FlavV1                 // X.509 v1 certificate (no extensions at all)
+	FlavExpired            // validity period that ended before the children's began
+	FlavNotYetValid        // validity period that begins after the children's ended
+	NFlav
+)
+
+var FlavName = []string{"ca", "not-ca", "no-basic-constraints", "keyusage-no-certsign", "keyusage-encipher-only", "keyusage-certsign", "v1", "expired", "not-yet-valid"}
+
+// WithFlavour returns c with the authority flavour f (the name, key and signature relation stay the same).
+func WithFlavour(c CertSpec, f int) CertSpec {
+	switch f {
+	case FlavNotCA:
+		c.BC, c.CA, c.MPL = true, false, -1
+	case FlavNoBC:
+		c.BC, c.CA, c.MPL = false, false, -1
+	case FlavKUNoSign:
+		c.KU = KUNoCertSign
+	case FlavKUEncipher:
+		c.BC, c.CA, c.MPL, c.KU = false, false, -1, KUEncipherOnly
+	case FlavKUSign:
+		c.KU = KUCertSign
+	case FlavV1:
+		c.BC, c.CA, c.MPL, c.KU, c.DNS, c.V1 = false, false, -1, 0, 0, true
+	case FlavExpired:
+		c.NB, c.NA = -900000, -800000
+	case FlavNotYetValid:
+		c.NB, c.NA = 800000, 900000
+	}
+	return c
+}
+
+// FlavourOf classifies a spec (for the evidence tags).
+func FlavourOf(c CertSpec) int {
+	switch {
+	case c.V1:
+		return FlavV1
+	case c.KU == KUNoCertSign:
+		return FlavKUNoSign
+	case c.KU == KUEncipherOnly:
+		return FlavKUEncipher
+	case c.NA < -1000:
+		return FlavExpired
+	case c.NB > 1000:
+		return FlavNotYetValid
+	case c.BC && !c.CA:
+		return FlavNotCA
+	case !c.BC:
+		return FlavNoBC
+	case c.KU == KUCertSign:
+		return FlavKUSign
+	}
+	return FlavCA
+}
+
+// Flavour gives every certificate of cs, with probability p percent, a random authority flavour.
+func Flavour(r *zv.Rng, cs []CertSpec, p int) {
+	for i := range cs {
+		if r.Chance(p) {
+			cs[i] = WithFlavour(cs[i], 1+r.Intn(NFlav-1))
+		}
+	}
+}
+
+// Unauthorised: universes around an issuer that really signed its children but is "not authorised to sign"
+// (flavour f): a root, the issuer I under the root, a child of I, a self-issued certificate of I's name with a new
+// key signed by I (its node is a second node with the issuer name), and a self-signed certificate of flavour f
+// with a child of its own.
+func Unauthorised(f int) [][]CertSpec {
+	us := [][]CertSpec{
+		{def(0, 0, 0, 0), WithFlavour(def(1, 1, 0, 0), f), def(2, 2, 1, 1), def(1, 3, 1, 1)},
+		{WithFlavour(def(0, 0, 0, 0), f), def(1, 1, 0, 0), WithFlavour(def(1, 2, 0, 0), f), def(2, 3, 1, 2), def(2, 3, 1, 1)},
 	}
 	for _, u := range us {
 		for i := range u {
@@ -292,6 +405,20 @@ func gen(g *zv.Gen) {
 		emitAll(cs, ops)
 		emitAll(cs, append(append([]Op{}, ops...), Op{Root: true, I: 1}))
 	}
+	// issuers that are "not authorised to sign" (cA not asserted, keyUsage without keyCertSign, v1, validity
+	// periods disjoint from the children's) but whose key really signed the children: every insertion order
+	for f := 1; f < NFlav; f++ {
+		for _, cs := range Unauthorised(f) {
+			var ops []Op
+			for i := range cs {
+				ops = append(ops, Op{Root: i == 0, I: i})
+			}
+			emitAll(cs, ops)
+			if len(ops) <= 4 || !g.Quick {
+				emitAll(cs, append(append([]Op{}, ops...), Op{Root: true, I: 1}))
+			}
+		}
+	}
 	nu := g.N(30, 60)
 	for i := 0; i < nu; i++ {
 		n := 3 + r.Intn(3) // 3..5 certificates
@@ -299,7 +426,11 @@ func gen(g *zv.Gen) {
 			n = 6
 		}
 		m := n + r.Intn(maxOps-n+1)
-		emitAll(RandomUniverse(r, n), multiset(r, n, m))
+		cs := RandomUniverse(r, n)
+		if i%2 == 1 {
+			Flavour(r, cs, 50)
+		}
+		emitAll(cs, multiset(r, n, m))
 	}
 	// bigger universes, sampled orders
 	nb := g.N(100, 3000)
@@ -313,6 +444,9 @@ func gen(g *zv.Gen) {
 			for j := range cs {
 				cs[j].Serial = j + 1
 			}
+		}
+		if i%2 == 1 {
+			Flavour(r, cs, 40)
 		}
 		tok := FormatSpecs(cs)
 		vm := Load(tok).VerifyMatrix()
@@ -329,5 +463,5 @@ func gen(g *zv.Gen) {
 
 func init() {
 	zv.Register(&zv.Prop{ID: "C10", Topic: "c10", Gen: gen, Exec: exec,
-		Rule: "universes of real certificates (ECDSA P-256; plus RSA twins = one RSA key under two SubjectPublicKeyInfo encodings, so that several nodes verify one certificate; 6 handcrafted: chain, cross-sign, self-issued rollover, dangling issuers, same-subject different-key CAs, cyclic cross-signs; random ones over small (name,key) pools with wrong-key, unknown-name and corrupted-signature issuers); ALL distinct permutations of insertion multisets (AddCert/AddRoot, duplicates, root re-insertions) of up to 6 (quick) / 7 (thorough) operations, 20 sampled orders of 6..9-certificate universes; a case is one (universe, order); T3 = the property's invariant evaluated on the hook's dump of the real graph + comparison with the canonical-order graph up to issuer choice"})
+		Rule: "universes of real certificates (ECDSA P-256; plus RSA twins = one RSA key under two SubjectPublicKeyInfo encodings, so that several nodes verify one certificate; 6 handcrafted: chain, cross-sign, self-issued rollover, dangling issuers, same-subject different-key CAs, cyclic cross-signs; 9 x 2 universes around an issuer that really signed its children but is not authorised to sign by RFC 5280: cA=FALSE, v3 without basicConstraints, keyUsage without keyCertSign (digitalSignature / keyEncipherment only), keyUsage with keyCertSign as control, X.509 v1, validity period expired before / starting after the children's, both as intermediate and as self-signed certificate; random ones over small (name,key) pools with wrong-key, unknown-name and corrupted-signature issuers, every other one with such authority flavours on random certificates); ALL distinct permutations of insertion multisets (AddCert/AddRoot, duplicates, root re-insertions) of up to 6 (quick) / 7 (thorough) operations, 20 sampled orders of 6..9-certificate universes; a case is one (universe, order); T3 = the property's invariant evaluated on the hook's dump of the real graph + comparison with the canonical-order graph up to issuer choice"})
 }
